@@ -333,6 +333,126 @@ fn cases(report: &Report, max_arms: u32) {
     report.family(FamilyStat { name, cases: total, nontrivial: nontriv.load(Ordering::Relaxed), skipped: 0, note: "arms of 1-2 values (comma and `or` lists, duplicates, overlaps) x 5 targets x else? x literal/variable target".into() });
 }
 
+
+/// Re-execution: the same parsed conditional is executed again with other operands — across
+/// renders of one template object (every ordered pair of data objects) and inside a loop body.
+/// "The first arm whose condition holds" must not depend on which arm the block took before.
+fn reexecution(report: &Report, max_arms: u32) {
+    let parser = cfgs::parser(Config::Stdlib);
+    let vals = [V::Int(1), V::Int(2), V::s("a"), V::s("1"), V::Nil];
+    let arm_count = 5 + 25 + 25;
+    let arm = |k: u64| -> (Vec<Expr>, bool) {
+        if k < 5 {
+            (vec![Expr::Lit(vals[k as usize].clone())], false)
+        } else {
+            let k2 = k - 5;
+            let k3 = k2 % 25;
+            (vec![Expr::Lit(vals[(k3 / 5) as usize].clone()), Expr::Lit(vals[(k3 % 5) as usize].clone())], k2 >= 25)
+        }
+    };
+    let seqs = seq_count(arm_count, max_arms) - 1;
+    let total = seqs * 2 * 2;
+    let name = format!("re-execution/case arms<={max_arms}");
+    let compared = AtomicU64::new(0);
+    // data for the across-render form: the five targets; for the in-loop form: every sequence of 2..3 targets
+    let targets: Vec<V> = vals.iter().map(|t| V::obj(&[("t", t.clone())])).collect();
+    let mut lists: Vec<V> = Vec::new();
+    for a in &vals {
+        for b in &vals {
+            lists.push(V::obj(&[("ts", V::Arr(vec![a.clone(), b.clone()]))]));
+            for c in &vals {
+                lists.push(V::obj(&[("ts", V::Arr(vec![a.clone(), b.clone(), c.clone()]))]));
+            }
+        }
+    }
+    let build = |i: u64| -> (Vec<Stmt>, bool) {
+        let d = decode(i, &[seqs, 2, 2]);
+        let arms = seq_decode(d[0] + 1, arm_count, max_arms);
+        let whens: Vec<(Vec<Expr>, bool, Vec<Stmt>)> = arms.iter().enumerate().map(|(j, a)| {
+            let (vs, or) = arm(*a);
+            (vs, or, vec![text(&format!("W{j}"))])
+        }).collect();
+        let case = Stmt::Case { target: Expr::var("t"), whens, else_: if d[1] == 1 { Some(vec![text("EL")]) } else { None } };
+        let in_loop = d[2] == 1;
+        let prog = if in_loop { vec![for_("t", Src::Expr(Expr::var("ts")), vec![text("["), case, text("]")])] } else { vec![text("["), case, text("]")] };
+        (prog, in_loop)
+    };
+    par_range(
+        report,
+        &name,
+        total,
+        |i| {
+            let (prog, in_loop) = build(i);
+            let textp = print(&prog);
+            if in_loop {
+                // one render per list: the block runs 2-3 times inside it
+                let Ok(Ok(tmpl)) = cfgs::parse_guarded(&parser, &textp) else {
+                    report.violation("C06|reexec|well-formed-program-rejected", i, cmp::witness(&textp, &lists[0], &[]), "does not parse".into());
+                    return;
+                };
+                for d in &lists {
+                    report.eval();
+                    let expected = refl::run(&prog, d);
+                    let actual = match cfgs::render_guarded(&tmpl, &d.to_object()) {
+                        Ok(Ok(s)) => cfgs::Outcome::Ok(s),
+                        Ok(Err(e)) => cfgs::Outcome::RenderErr(e),
+                        Err(pi) => cfgs::Outcome::Panic(pi.describe()),
+                    };
+                    if cmp::check(report, "C06", "reexec-in-loop", i, || cmp::witness(&textp, d, &[]), &expected, &actual) {
+                        compared.fetch_add(1, Ordering::Relaxed);
+                    }
+                }
+            } else {
+                let expected: Vec<_> = targets.iter().map(|d| refl::run(&prog, d)).collect();
+                compared.fetch_add(cmp::check_reexec(report, "C06", "reexec", i, &parser, &textp, &[], &targets, &expected), Ordering::Relaxed);
+            }
+        },
+        |i| cmp::witness(&print(&build(i).0), &targets[0], &[]),
+    );
+    let c = compared.load(Ordering::Relaxed);
+    report.nontrivial.fetch_add(c, Ordering::Relaxed);
+    report.family(FamilyStat { name, cases: total, nontrivial: c, skipped: 0, note: "every arm sequence x else? ; across renders: one parsed template, every ordered pair of the 5 targets; in a loop body: every target list of length 2-3".into() });
+
+    // if / elsif chains and and/or shapes over variables: one parsed template, every ordered pair of assignments
+    let name = "re-execution/if-elsif-else and and/or shapes".to_string();
+    let mut n = 0u64;
+    let mut cmpd = 0u64;
+    let mut progs: Vec<(Vec<Stmt>, usize)> = Vec::new();
+    for arms in 1..=3usize {
+        for has_else in [false, true] {
+            progs.push((
+                vec![Stmt::If {
+                    unless: false,
+                    cond: Cond::Truthy(Expr::var("c0")),
+                    body: vec![text("B0")],
+                    elsifs: (1..arms).map(|k| (Cond::Truthy(Expr::var(&format!("c{k}"))), vec![text(&format!("B{k}"))])).collect(),
+                    else_: if has_else { Some(vec![text("EL")]) } else { None },
+                }],
+                arms,
+            ));
+        }
+    }
+    let v = |k: usize| Cond::Truthy(Expr::var(&format!("c{k}")));
+    for (shape, k) in [
+        (Cond::Or(Box::new(v(0)), Box::new(Cond::And(Box::new(v(1)), Box::new(v(2))))), 3usize),
+        (Cond::And(Box::new(v(0)), Box::new(v(1))), 2),
+        (Cond::Or(Box::new(v(0)), Box::new(v(1))), 2),
+        (Cond::Bin(Expr::var("c0"), Op::Eq, Expr::var("c1")), 2),
+    ] {
+        for unless in [false, true] {
+            progs.push((vec![Stmt::If { unless, cond: shape.clone(), body: vec![text("T")], elsifs: vec![], else_: Some(vec![text("F")]) }], k));
+        }
+    }
+    for (pi, (prog, k)) in progs.iter().enumerate() {
+        let datas: Vec<V> = (0..(1u32 << k)).map(|a| V::Obj((0..*k).map(|j| (format!("c{j}"), V::Bool(a >> j & 1 == 1))).collect())).collect();
+        let expected: Vec<_> = datas.iter().map(|d| refl::run(prog, d)).collect();
+        n += 1;
+        cmpd += cmp::check_reexec(report, "C06", "reexec", pi as u64, &parser, &print(prog), &[], &datas, &expected);
+    }
+    report.nontrivial.fetch_add(cmpd, Ordering::Relaxed);
+    report.family(FamilyStat { name, cases: n, nontrivial: cmpd, skipped: 0, note: "one parsed template per shape; every ordered pair of truth assignments rendered in turn".into() });
+}
+
 pub fn run(tier: Tier) -> i32 {
     let report = Report::new("C06", tier, "exploration");
     report.set_rule("complete products: operators x ordered value pairs x operand forms x if/unless; branch chains with all truth assignments; case/when arm sequences; and/or shapes with all assignments; distinct by construction; non-trivial = the case was compared against an oracle (value-model differential and/or independent reference), i.e. not skipped as unspecified");
@@ -341,6 +461,7 @@ pub fn run(tier: Tier) -> i32 {
     chains(&report);
     logic(&report);
     cases(&report, if tier.thorough() { 3 } else { 2 });
+    reexecution(&report, 2);
     if tier.thorough() {
         // 4 single-valued arms
         cases_single4(&report);
